@@ -1,6 +1,6 @@
 # replay of a solver counterexample against the real library (exit 1 = reproduces)
 import sys, warnings
-sys.path.insert(0, '/repo')
+sys.path.insert(0, '/tmp/sr/C19-m6')
 warnings.simplefilter('ignore')
 import numpy as np
 from svgpathtools import *
@@ -15,7 +15,7 @@ def NOT_REPRODUCED(msg=''):
 
 from svgpathtools.polytools import rational_limit
 from fractions import Fraction as F
-fc = [(5.820766091346741e-11+0j), 0j, 0j]; gc = [5.820766091346741e-11, 0.0, 9.313225746154785e-10]; t0 = 0.0; m = 3
+fc = [(-1+0j), 0j, 1j]; gc = [-1.0, 0.0, -1.0]; t0 = 0.0; m = 3
 f1 = np.poly1d(fc); g1 = np.poly1d(gc); lin = np.poly1d([1, -t0])
 f, g = f1, g1
 for _ in range(m):
